@@ -147,6 +147,23 @@ def checks(quick, rng):
         out.append("%s.replace(\"a\")" % L)
         out.append("%s + %s" % (L, L))
         out.append("\"<${%s}>\"" % L)
+    # needles that overlap themselves inside the receiver, needles longer than / equal to / one shorter than the receiver, and
+    # replacements of the same, smaller and greater byte length than the needle (fast paths for equal sizes, scans that stop
+    # at len - needle_len)
+    for s, needles in [("aaa", ["aa", "aaa", "aaaa"]), ("aaaa", ["aa", "aaa"]), ("ababa", ["aba", "ab", "bab", "ababab"]), ("ééé", ["éé", "é", "éééé"]),
+                       ("abcabcab", ["abcab", "bca", "cab"]), ("aXaXa", ["aXa", "XaX"]), ("€€€", ["€€"]), ("a😀a😀a", ["a😀a", "😀a😀"]), ("", ["a", "aa"]),
+                       ("ab", ["abc", "ab", "b", "bc"]), ("é", ["éa", "aé", "é"])]:
+        L = lit(s)
+        for nd in needles:
+            nb = len(nd.encode())
+            reps = ["", "b" * nb, "é" * (nb // 2) + "x" * (nb % 2), "Z", nd + nd, nd[::-1], "€"]
+            for rp in reps:
+                out.append("%s.replace(%s, %s)" % (L, lit(nd), lit(rp)))
+            out.append("%s.split(%s)" % (L, lit(nd)))
+            out.append("%s.starts_with(%s)" % (L, lit(nd)))
+            out.append("%s.ends_with(%s)" % (L, lit(nd)))
+            for st in range(0, len(s.encode()) + 1):
+                out.append("%s.find(%s, %d)" % (L, lit(nd), st))
     for t in ["1", "1.5", "-0", "1e5", "+1", ".5", "5.", "inf", "-inf", "NaN", "nan", "infinity", "Infinity", " 1", "1 ", "0x10", "1_0",
               "", "١", "1e", "e1", "--1", "1..2", "9007199254740993", "1e400", "-1e-400", "0.1", "٣"]:
         out.append("%s.to_num()" % lit(t))
